@@ -12,13 +12,14 @@ R13.5  chain / fraction / bayes expansion, contraction, Applier roles.
 from __future__ import annotations
 
 import ast
+import dataclasses
 
 from ..model import AnalysisError, Model
 from ..monomial import Denoter, Mono
 from ..report import Report
-from ..setalg import SetAlg, compare, f_and, f_not, f_or, show_formula, show_row, atoms_of
+from ..setalg import SetAlg, accum_as_comp, compare, f_and, f_not, f_or, show_formula, show_row, atoms_of
 from ..symeval import Evaluator, dnf_paths, State
-from ..terms import EMPTY, NONE, TRUE, Term, const, has_unknown, show, subst, subterms, var
+from ..terms import EMPTY, NONE, TRUE, Term, const, has_unknown, mapterm, show, subst, subterms, var
 from .common import construct, loc, raise_paths, return_paths, short, typed, exc_name
 from .dslcommon import ATOMIC, DSL, DSL_PRIMS, EXPR, classes_consistent, concrete_expression_classes, kind_of, mentions
 
@@ -215,7 +216,7 @@ def r13_1b(model: Model, rep: Report) -> None:
         v = p.value
         if v == X:
             poss = classes_consistent(model, classes, p.conds, X)
-            empty_ranges = any(c[0] == "not" and c[1][0] == "truth" for c in p.conds)
+            empty_ranges = any(_says_empty(sa, c) for c in p.conds)
             if not empty_ranges and not all(k.is_subclass_of("Zero") for k in poss):
                 problems.append("returns the summand unchanged (dropping the sum) for a summand that is not Zero: " + ", ".join(k.name for k in poss if not k.is_subclass_of("Zero"))[:120])
         else:
@@ -406,12 +407,14 @@ def r13_3(model: Model, rep: Report) -> None:
         if p.kind != "return":
             rep.refuted("R13.3", construct(f, f"path{pi}"), f"simplify raises {exc_name(p)}", loc(f, p.line))
             continue
-        v = p.value
         cons = construct(f, f"path{pi}")
-        if v == slf:
+        if p.value == slf:
             rep.proven("R13.3", cons, loc=loc(f, p.line), nontrivial=False, sample={"branch": "returns self unchanged"})
             continue
         n_checked += 1
+        # a dict filled by a loop (`d[k(x)] = x` once per element) is the dict comprehension with the same generators
+        p = dataclasses.replace(p, conds=tuple(mapterm(c, _loops_as_comps) for c in p.conds), value=mapterm(p.value, _loops_as_comps))
+        v = p.value
         # K = base names of the children (keys of the children dict), found from the path conditions / value
         K = None
         for s in subterms((p.conds, v)):
@@ -439,22 +442,7 @@ def r13_3(model: Model, rep: Report) -> None:
             problems.append("a summed variable is removed from the joint on a path that never compares the ranges with the children's intervention subscripts: "
                             "Sum[B](P(B, C @ B)) becomes P(C @ B), in which the summed B is left behind as a free subscript (variable capture)")
         for c in p.conds:
-            neg = c[0] == "not"
-            cc = c[1] if neg else c
-            if cc[0] == "eq" and not neg and {sa.canon_top(("setof", cc[1])), sa.canon_top(("setof", cc[2]))} == {sa.canon_top(("setof", R)), sa.canon_top(("setof", K))}:
-                axioms.append(f_or(f_and(inR, inK), f_and(f_not(inR), f_not(inK))))
-            if cc[0] == "psubset" and not neg:
-                a_, b_ = sa.member(k, cc[1]), sa.member(k, cc[2])
-                axioms.append(f_or(f_not(a_), b_))
-            if cc[0] == "truth" and neg:
-                # "this selection of the children is empty": no key passes its filter
-                sel = cc[1]
-                while sel[0] == "call" and sel[1] in ("list", "tuple", "set", "frozenset") and len(sel[2]) == 1:
-                    sel = sel[2][0]
-                if sel[0] == "comp" and len(sel[3]) == 1:
-                    pat, it, cds = sel[3][0]
-                    if pat[0] == "tuplelit" and len(pat[1]) == 2 and it[0] == "meth" and it[2] == "items":
-                        axioms.append(f_not(f_and(sa.member(k, it[1]), *[sa.cond(subst(c_, {pat[1][0]: k})) for c_ in cds])))
+            axioms.extend(_universal_instances(c, k, sa, R, K))
         # decompose the returned value
         ranges_out, child_filter, leaf_ok = _decompose_sum_result(v, X, sa, k)
         if ranges_out is None:
@@ -475,6 +463,75 @@ def r13_3(model: Model, rep: Report) -> None:
             rep.proven("R13.3", cons, loc=loc(f, p.line), sample=sample)
     if n_checked < 1:
         rep.error("R13.3: no rewriting branch of Sum.simplify found")
+
+
+def _says_empty(sa: SetAlg, c: Term) -> bool:
+    """Is the condition `this collection is empty`, however spelt (not X, len(X) == 0, len(X) < 1, X == ())?"""
+    if c[0] == "not" and c[1][0] == "truth":
+        return True
+    subjects = [s_[1] for s_ in subterms(c) if s_[0] in ("len", "truth") and len(s_) == 2 and is_term_(s_[1])]
+    if c[0] == "eq" and len(c) == 3:
+        for a_, b_ in ((c[1], c[2]), (c[2], c[1])):
+            if b_ in (("tuplelit", ()), ("listlit", ())):
+                subjects.append(a_)
+    try:
+        f = sa.cond(c)
+    except Exception:  # noqa: BLE001
+        return False
+    for y in subjects:
+        same, _row, _ = compare(f, f_not(sa.cond(("truth", y))), [])
+        if same:
+            return True
+    return False
+
+
+def is_term_(x) -> bool:
+    return isinstance(x, tuple) and bool(x) and isinstance(x[0], str)
+
+
+def _loops_as_comps(t: Term):
+    if t[0] == "accum":
+        return accum_as_comp(t)
+    return None
+
+
+def _set_like(sa: SetAlg, t: Term) -> bool:
+    return sa.is_setexpr(t) or (t[0] == "op" and t[1] in ("^", "|", "&", "-") and len(t) == 4 and _set_like(sa, t[2]) and _set_like(sa, t[3])) or (
+        t[0] == "call" and t[1] in ("set", "frozenset") and len(t[2]) == 1)
+
+
+def _universal_instances(c: Term, k: Term, sa: SetAlg, R: Term, K: Term) -> list:
+    """What a path condition about whole sets says about ONE arbitrary key k (the universal half of the condition; an existential half --
+    'some element is in the difference' -- says nothing about k and is dropped)."""
+    neg = c[0] == "not"
+    cc = c[1] if neg else c
+    out = []
+    if cc[0] == "eq" and not neg and ((_set_like(sa, cc[1]) and _set_like(sa, cc[2])) or
+                                      {sa.canon_top(("setof", cc[1])), sa.canon_top(("setof", cc[2]))} == {sa.canon_top(("setof", R)), sa.canon_top(("setof", K))}):
+        a_, b_ = sa.member(k, cc[1]), sa.member(k, cc[2])
+        out.append(f_or(f_and(a_, b_), f_and(f_not(a_), f_not(b_))))
+    if cc[0] == "ne" and neg and _set_like(sa, cc[1]) and _set_like(sa, cc[2]):
+        a_, b_ = sa.member(k, cc[1]), sa.member(k, cc[2])
+        out.append(f_or(f_and(a_, b_), f_and(f_not(a_), f_not(b_))))
+    if cc[0] in ("psubset", "subset") and not neg:
+        a_, b_ = sa.member(k, cc[1]), sa.member(k, cc[2])
+        out.append(f_or(f_not(a_), b_))
+    if cc[0] == "disjoint" and not neg and len(cc) == 3:
+        out.append(f_not(f_and(sa.member(k, cc[1]), sa.member(k, cc[2]))))
+    if cc[0] == "truth" and neg:
+        # "this selection is empty": no key passes its filter
+        sel = cc[1]
+        while sel[0] == "call" and sel[1] in ("list", "tuple", "set", "frozenset", "sorted") and len(sel[2]) == 1:
+            sel = sel[2][0]
+        while sel[0] == "setof":
+            sel = sel[1]
+        if sel[0] == "comp" and len(sel[3]) == 1 and sel[3][0][0][0] == "tuplelit":
+            pat, it, cds = sel[3][0]
+            if len(pat[1]) == 2 and it[0] == "meth" and it[2] == "items":
+                out.append(f_not(f_and(sa.member(k, it[1]), *[sa.cond(subst(c_, {pat[1][0]: k})) for c_ in cds])))
+        elif _set_like(sa, sel) or (sel[0] == "comp" and sel[1] in ("set", "list", "gen") and len(sel[3]) == 1 and sel[3][0][0] == sel[2]):
+            out.append(f_not(sa.member(k, sel)))
+    return out
 
 
 def _decompose_sum_result(v: Term, X: Term, sa: SetAlg, k: Term):
